@@ -8,11 +8,12 @@ import BU.Driver.Keys
 import BU.Driver.Heap
 import BU.Driver.HD
 import BU.Driver.Bch
+import BU.Driver.Rmd
 /-! Compiled driver (`lean_exe budriver`): one request per line on stdin, one answer per line on
 stdout.  Imports Model/Spec/Crypto only — never `BU.Gen.*`, never Mathlib. -/
 open Driver
 
-def allOps : List (String × (Model.Tables → R String)) := wireOps ++ timelockOps ++ blockOps ++ digestOps ++ taprootOps ++ keyOps ++ keyOps2 ++ hdSpecOps ++ bchOps
+def allOps : List (String × (Model.Tables → R String)) := wireOps ++ timelockOps ++ blockOps ++ digestOps ++ taprootOps ++ keyOps ++ keyOps2 ++ hdSpecOps ++ bchOps ++ rmdOps
 
 structure St where
   tables : Model.Tables := default
